@@ -430,6 +430,25 @@ func c174(c *an.Ctx, p *an.Prog) {
 			if ps.Args[0].K != s.T(fn.Params[1]).K {
 				bad = append(bad, "strength is computed for "+ps.Args[0].K+", not for the password parameter")
 			}
+			// user inputs include the user name; no matcher is filtered out (a skipped matcher raises every score)
+			if ui := ps.Args[1]; !ui.Contains(func(t *an.Term) bool { return t.K == s.T(fn.Params[2]).K }) {
+				// the slice literal is a fresh array: look at the stores into it
+				okUser := false
+				for _, e2 := range s.Events {
+					if e2.Kind == "store" && e2.Args[1].K == s.T(fn.Params[2]).K && e2.Args[0].Op == "indexaddr" && ui.Contains(func(t *an.Term) bool { return t.K == e2.Args[0].Args[0].K }) {
+						okUser = true
+					}
+				}
+				if !okUser {
+					bad = append(bad, "the user name is not among the user inputs handed to zxcvbn")
+				}
+			}
+			if len(ps.Args) > 2 {
+				f := ps.Args[2]
+				if !(f.IsConst("nil") || (f.Op == "varargs" && len(f.Args) == 0)) {
+					bad = append(bad, "zxcvbn is called with matcher filters ("+f.K+"): passwords the full zxcvbn result rejects would pass the policy")
+				}
+			}
 			if ret.Args[0].K != cond.K {
 				bad = append(bad, "result is not the comparison's result: "+ret.Args[0].K)
 			}
